@@ -158,6 +158,8 @@ type Engine struct {
 	knownTags    map[string]bool // assertion messages that are known findings: do not stop, do not count
 	knownHit     map[string]*Violation
 	timeNow      *Term
+	goQueue      []FuncV             // goroutines queued by vQueueGo: run when the harness goroutine blocks
+	inGoroutine  int
 	guards       map[*Cell]guardInfo // lockset discipline declared by vGuardedBy
 	harnessFn    map[*ssa.Function]bool
 	noBlockMsg   string // while set, a call that blocks forever is a violation (vMustNotBlock)
@@ -239,6 +241,7 @@ func (e *Engine) resetPath(prefix []decision) {
 	e.noBlockMsg = ""
 	e.clockSkew = 0
 	e.guards = nil
+	e.goQueue, e.inGoroutine = nil, 0
 	if e.harnessFn == nil {
 		e.harnessFn = map[*ssa.Function]bool{}
 	}
@@ -702,6 +705,40 @@ func (e *Engine) reportViolation(kind, msg string, model map[*Term]uint64) {
 	panic(pathEnd{kind: "violation", msg: msg})
 }
 
+type goParked struct{}
+
+// runQueued is the scheduling rule for goroutines started through vQueueGo: when the harness
+// goroutine cannot proceed, every queued goroutine runs, one after the other, until it
+// returns or parks at a blocking operation of its own (a parked goroutine is not resumed).
+// Reports whether anything ran; the caller then re-evaluates its blocking operation.
+func (e *Engine) runQueued() bool {
+	if len(e.goQueue) == 0 || e.inGoroutine > 0 {
+		return false
+	}
+	if e.noFork > 0 {
+		panic(mergeAbort{"goroutine switch inside merge"})
+	}
+	q := e.goQueue
+	e.goQueue = nil
+	for _, fv := range q {
+		func() {
+			stack, depth := e.stack, e.depth
+			e.inGoroutine++
+			defer func() {
+				e.inGoroutine--
+				if r := recover(); r != nil {
+					if _, ok := r.(goParked); !ok {
+						panic(r)
+					}
+					e.stack, e.depth = stack, depth
+				}
+			}()
+			e.invokeFuncV(fv, nil, token.NoPos)
+		}()
+	}
+	return true
+}
+
 type guardInfo struct {
 	lock *Cell // the sync.Mutex / sync.RWMutex cell that must be held
 	name string
@@ -751,6 +788,9 @@ func (e *Engine) checkGuard(fr *Frame, p Ptr, write bool) {
 // block ends the path at an operation that can never proceed in the sequential execution.
 // Inside a vMustNotBlock section this is a violation (the native replay confirms it as a hang).
 func (e *Engine) block(msg string) {
+	if e.inGoroutine > 0 {
+		panic(goParked{})
+	}
 	if e.noBlockMsg != "" {
 		if e.noFork > 0 {
 			panic(mergeAbort{"block inside merge"})
